@@ -113,6 +113,9 @@ func (i *Interceptors) NewSegment(val string) (*Segment, error) {
 	seg.Suffix = val[end+1:]
 	name := ":"
 	if !seg.ignoreName {
+		if strings.IndexByte(seg.Name, '>') >= 0 { // 名称会成为正则表达式中的分组名称，其中的 > 会提前结束该名称。
+			return nil, fmt.Errorf("正则参数的名称中不能包含 >：%s", val)
+		}
 		name = "P<" + seg.Name + ">"
 	}
 	tail := regexp.QuoteMeta(seg.Suffix)
